@@ -47,4 +47,13 @@ m = {
     "not_applicable": na,
 }
 json.dump(m, open(os.path.join(VERIF, "MANIFEST.json"), "w"), indent=1)
+# known_findings.json = merge of findings/Cxx.json (committed; never written by a check)
+import glob
+allf, fixed = [], []
+for p in sorted(glob.glob(os.path.join(VERIF, "findings", "C*.json"))):
+    d = json.load(open(p))
+    allf += d.get("findings", [])
+    fixed += d.get("fixed", [])
+json.dump({"_comment": "Genuine defects of /repo recorded rather than repaired (DESIGN.md section 7); merged from findings/Cxx.json by tools/mkmanifest.py. Never written at run time. `fixed` entries suppress nothing.",
+           "findings": allf, "fixed": fixed}, open(os.path.join(VERIF, "known_findings.json"), "w"), indent=1)
 print("claimed:", [c["property_id"] for c in checks])
